@@ -59,6 +59,9 @@ def _case(draw):
         else:
             thr = draw(st.sampled_from([None, None, 0.3, 0.5, 0.666, 0.9, 1.0]))
         mv = draw(st.integers(1, n))
+    if strat == 5 and draw(st.booleans()):
+        # heavy, confident voters: the Bayesian update saturates (adjusted likelihood clamps at 1), beliefs can hit exactly 0
+        voters = [[v[0], draw(st.sampled_from([1, 2, 2])), draw(st.sampled_from([0.5, 1, 1]))] for v in voters]
     hist = None
     if draw(st.integers(0, 2)) == 0:
         hist = {"initial": draw(st.integers(0, n)), "pre_vote": draw(st.booleans()), "pre_stats": draw(st.booleans()), "extra": draw(st.booleans()),
@@ -199,6 +202,40 @@ def judge(case):
         if (fresh.reached, fresh.decision, fresh.permit_votes, fresh.block_votes) != (res.reached, res.decision, res.permit_votes, res.block_votes):
             out.fail("S8-history-dependent-decision:" + tag, "same ballot and configuration: %s on a colony built step by step, %s on a fresh one"
                      % (res.decision.value, fresh.decision.value), dict(obs, hist=case["hist"]))
+    # S9 seating order: the decision is a function of the ballots cast, not of the order in which the voters sit
+    if n >= 2 and not case.get("hist"):
+        from fractions import Fraction as F
+
+        def near_tie():
+            t = F(str(thr)) if thr else (F(333, 500) if strat == "SUPERMAJORITY" else F(1, 2))
+            if strat in ("WEIGHTED", "CONFIDENCE"):
+                cmin = F(3, 10) if strat == "CONFIDENCE" else F(0)
+                pw = sum((F(str(v[1])) * F(str(v[2])) for v in permits if F(str(v[2])) >= cmin), F(0))
+                bw = sum((F(str(v[1])) * F(str(v[2])) for v in blocks if F(str(v[2])) >= cmin), F(0))
+                return pw + bw != 0 and abs(pw / (pw + bw) - t) < F(1, 10 ** 9)      # 0/0 is no rounding matter: deterministic in any order
+            if strat == "BAYESIAN":
+                pp, pb = F(1, 2), F(1, 2)
+                for v in permits + blocks:
+                    a = min(F(1), max(F(0), F(1, 2) + F(2, 5) * F(str(v[2])) * F(str(v[1]))))
+                    if v in permits:
+                        pp, pb = pp * a, pb * (1 - a)
+                    else:
+                        pp, pb = pp * (1 - a), pb * a
+                return pp + pb != 0 and abs(pp / (pp + pb) - t) < F(1, 10 ** 9)
+            return False
+
+        for order_name, v2 in (("reversed", voters[::-1]), ("rotated", voters[1:] + voters[:1])):
+            if v2 == voters:
+                continue
+            try:
+                r2 = _run(case, v2)
+            except Exception as e:
+                out.fail("raise:%s:%s" % (type(e).__name__, tag), "run_vote raised %s" % e, {"voters": v2})
+                break
+            if r2.reached != res.reached and not near_tie():
+                out.fail("S9-seating-order-dependent:" + tag, "the same ballots give %s in the given order and %s when %s"
+                         % (res.decision.value, r2.decision.value, order_name), dict(obs, voters=voters))
+                break
     # S1
     if res.reached != (res.decision == VoteType.PERMIT):
         out.fail("S1-reached-vs-decision:" + tag, "reached=%s but decision=%s" % (res.reached, res.decision.value), obs)
